@@ -1,18 +1,24 @@
 #!/bin/bash
-# Behaviour-preserving refactors (refactors/*.patch): every check must stay silent on them. NOT a registered check.
+# Behaviour-preserving refactors (refactors/*.patch, agents/, agents2/, agents3/): every check must stay silent on them.
+# NOT a registered check. usage: scripts/refactors.sh [pattern]   (JOBS=n parallel worktrees, default 6)
 cd "$(dirname "$0")/.." || exit 2
 export GOFLAGS=-mod=mod GOPROXY=off GOSUMDB=off GOTOOLCHAIN=local; unset GOWORK
-rc=0
-for P in refactors/*.patch refactors/agents/*.patch refactors/agents2/*.patch; do
-  [ -n "${1:-}" ] && ! echo "$P" | grep -q "$1" && continue
+one() {
+  P="$1"
   WT="$(mktemp -d /tmp/vr.XXXXXX)"; EV="$(mktemp -d /tmp/vrev.XXXXXX)"
   git -C /repo worktree add -q --detach "$WT" HEAD
-  if ! git -C "$WT" apply "$(readlink -f "$P")"; then echo "REFACTOR $(basename $P) APPLY-FAILED"; rc=1
-  elif ! (cd "$WT" && go build -trimpath ./... >/dev/null 2>&1); then echo "REFACTOR $(basename $P) BUILD-FAILED"; (cd "$WT" && go build -trimpath ./... 2>&1 | head -5); rc=1
+  if ! git -C "$WT" apply "$(readlink -f "$P")"; then echo "REFACTOR $P APPLY-FAILED"
+  elif ! (cd "$WT" && go build -trimpath ./... >/dev/null 2>&1); then echo "REFACTOR $P BUILD-FAILED"
   else
-    fired=$(bin/verifchk -repo "$WT" -prop all -evidence "$EV" 2>&1 | grep -A2 '^VIOLATION' | cut -c1-260)
-    if [ -z "$fired" ]; then echo "REFACTOR $(basename $P) SILENT (ok)"; else echo "REFACTOR $(basename $P) FALSE-ALARM"; echo "$fired"; rc=1; fi
+    fired=$(bin/verifchk -repo "$WT" -prop all -evidence "$EV" 2>&1 | grep -A2 '^VIOLATION' | cut -c1-260 | tr '\n' ' ')
+    if [ -z "$fired" ]; then echo "REFACTOR $P SILENT (ok)"; else echo "REFACTOR $P FALSE-ALARM $fired"; fi
   fi
   git -C /repo worktree remove --force "$WT" >/dev/null 2>&1; rm -rf "$WT" "$EV"
-done
+}
+export -f one
+ls refactors/*.patch refactors/agents/*.patch refactors/agents2/*.patch refactors/agents3/*.patch | grep "${1:-.}" \
+  | xargs -P "${JOBS:-6}" -I{} bash -c 'one {}' | sort | tee /tmp/refactors.$$.out
+echo "silent: $(grep -c 'SILENT' /tmp/refactors.$$.out)  not silent: $(grep -vc 'SILENT' /tmp/refactors.$$.out)"
+rc=0; grep -vq 'SILENT' /tmp/refactors.$$.out && rc=1
+rm -f /tmp/refactors.$$.out
 exit $rc
